@@ -200,6 +200,21 @@ def extract(repo, failures):
     out["exclusiveThrows"] = len(re.findall(r"if\s*\(\s*specifier_begin\s*!=\s*std::string::npos\s*\)\s*\{\s*QUILL_THROW", ctor or ""))
     order = re.findall(r"_time_format\.find\(specifier_name\[AdditionalSpecifier::(\w+)\]\)", ctor or "")
     out["searchOrder"] = order
+    # F21 repair: after the split, the constructor throws when part 2 still contains a fractional specifier
+    # (between the initialisation of part 1 and that of part 2)
+    rr = False
+    if ctor:
+        m = re.search(r"if\s*\(((?:[^{}]|\n)*?)\)\s*\{\s*QUILL_THROW\(QuillError\{\"[^\"]*only once[^\"]*\"\}\)", ctor)
+        if m:
+            kinds = set(re.findall(r"format_part_2\.find\(specifier_name\[AdditionalSpecifier::(\w+)\]\)\s*!=\s*std::string::npos", m.group(1)))
+            pos = m.start()
+            p1 = ctor.find("_strftime_part_1.init(format_part_1")
+            p2 = ctor.find("_strftime_part_2.init(format_part_2")
+            if kinds == {"Qms", "Qus", "Qns"} and "&&" not in m.group(1) and 0 <= p1 < pos < p2:
+                rr = True
+            else:
+                failures.append("time: the repeated-specifier check of the constructor is there but not in the expected form (%s)" % sorted(kinds))
+    out["rejectsRepeatedSpecifier"] = rr
 
     L = []
     L.append("/-- the array `_split_timestamp_format_once` searches for -/")
@@ -228,6 +243,8 @@ def extract(repo, failures):
     L.append("def nsPerSec : Nat := %d" % out.get("nsPerSec", 0))
     L.append("def fracRightAligned : Bool := %s" % lean_bool(out["fracRightAligned"]))
     L.append("def exclusiveThrows : Nat := %d" % out["exclusiveThrows"])
+    L.append("/-- the constructor throws when the text after the split still contains a fractional specifier (F21 repair) -/")
+    L.append("def rejectsRepeatedSpecifier : Bool := %s" % lean_bool(out["rejectsRepeatedSpecifier"]))
     return out, "\n".join(L)
 
 
